@@ -10,13 +10,16 @@ from framework import P, hexf, hexl
 PID = 'C08'
 LEVEL = 'proof'
 LEAN_TARGETS = ['Swiftness.Props.C08']
-BUILDS = {'quick': [('k160', 'stone5')], 'thorough': [('k160', 'stone5'), ('b248', 'stone5')]}
+BUILDS = {'quick': [('k160', 'stone5'), ('k160', 'stone5', 'full', 'all_layouts', 'parser')],
+          'thorough': [('k160', 'stone5'), ('b248', 'stone5'), ('k160', 'stone5', 'full', 'all_layouts', 'parser'),
+                       ('b248', 'stone6', 'full', 'all_layouts', 'parser'), ('k160', 'stone6', 'full', 'all_layouts', 'parser')]}
+HX = None
 RULE = ('random op sequences (length <= 40 quick / <= 400 thorough) over {absorb felt, absorb vector (incl. empty), absorb u64 (incl. 0, '
         'u64::MAX), squeeze} from random/edge digests and counters (incl. P-1 wrap); each with three auxiliary real-code runs: a strict '
         'prefix, the sequence with one absorbed value changed, the sequence with extra trailing messages. non-trivial = >= 2 ops with an '
         'absorb and a squeeze.')
 ASSUMPTIONS = ['Poseidon (starknet-crypto) is modelled by executable Lean code compared on every case; the oracle itself is relational',
-               'recorded Stone transcripts are compared under C03/C19 (parser build)']
+               'recorded Stone transcripts (V->P lines of the shipped proofs) are a test on recorded data, run on the parser build(s)']
 TRUSTED = ['Python relational oracle over the real code outputs']
 
 
@@ -56,7 +59,40 @@ def corpus(feats):
     return []
 
 
+def recorded_cases(feats):
+    """recorded Stone transcripts: the V->P lines of the shipped proofs this build accepts (a test on recorded data)"""
+    import glob, json, os, re
+    import framework as fw
+    out = []
+    files = []
+    for f in sorted(glob.glob('/repo/examples/proofs/*/*proof.json')):
+        j = json.load(open(f)); pp = j['proof_parameters']
+        stone = 'stone6' if 'stone6' in os.path.basename(f) else 'stone5'
+        if stone != fw.stone_of(feats): continue
+        files.append((f, j))
+    if not files or not HX: return out
+    toks, _ = fw.run_split(lambda ls, **kw: fw.run_hx(HX, ls), [f'parsefile {f}' for f, _ in files])
+    for (f, j), t in zip(files, toks):
+        if not t.startswith('ok '): continue
+        rec = {'ie': [], 'oods_point': None, 'oods_alpha': None, 'eval_points': [], 'queries': []}
+        for l in j['annotations']:
+            if not l.startswith('V->P'): continue
+            m = re.search(r'\((0x[0-9a-f]+|\d+)\)\s*$', l)
+            if not m: continue
+            v = int(m.group(1), 0)
+            if '/STARK/Interaction: Interaction element' in l: rec['ie'].append(v)
+            elif '/Out Of Domain Sampling/OODS values: Evaluation point' in l: rec['oods_point'] = v
+            elif '/Out Of Domain Sampling: Constraint polynomial random element' in l: rec['oods_alpha'] = v
+            elif '/FRI/Commitment/Layer' in l and 'Evaluation point' in l: rec['eval_points'].append(v)
+            elif '/FRI/QueryIndices' in l: rec['queries'].append(v)
+        out.append({'line': f"challenges {j['public_input']['layout']} {t[3:]}", 'kind': 'recorded', 'ops': [], 'rec': rec, 'hxonly': True,
+                    'name': f.split('proofs/')[1]})
+    return out
+
+
 def cases(rng, tier, feats, drv_ok):
+    if 'parser' in feats:
+        return recorded_cases(feats)
     out = []
     N, L = (200, 40) if tier == 'quick' else (1500, 400)
     for _ in range(N):
@@ -70,12 +106,13 @@ def cases(rng, tier, feats, drv_ok):
 
 
 def classify(c, co):
+    if c['kind'] == 'recorded': return f"recorded:{co[0]}"
     n = len(c['ops'])
     return f"len{'<=3' if n <= 3 else ('<=20' if n <= 20 else '>20')}:{co[0]}"
 
 
 def nontrivial(c, co):
-    return len(c['ops']) >= 2 and any(o == 'r' for o in c['ops']) and any(o != 'r' for o in c['ops'])
+    return c['kind'] == 'recorded' or len(c['ops']) >= 2 and any(o == 'r' for o in c['ops']) and any(o != 'r' for o in c['ops'])
 
 
 def parse(co):
@@ -84,7 +121,26 @@ def parse(co):
     return ch, t[1], t[2]
 
 
+def oracle_recorded(c, co):
+    # a build whose hash differs from the proof's rejects at the PoW check: nothing to compare then
+    if co[0] != 'ok':
+        return None
+    t = co[1].split()
+    ie = sorted(int(x, 16) for x in t[1].split(',')); rec = c['rec']
+    bad = []
+    if sorted(rec['ie']) != ie: bad.append('interaction elements')
+    if rec['oods_point'] != int(t[2], 16): bad.append('out-of-domain point')
+    if rec['oods_alpha'] != int(t[3], 16): bad.append('DEEP random coefficient')
+    if rec['eval_points'] != ([] if t[4] == '-' else [int(x, 16) for x in t[4].split(',')]): bad.append('FRI evaluation points')
+    if sorted(set(rec['queries'])) != ([] if t[5] == '-' else [int(x, 16) for x in t[5].split(',')]): bad.append('query indices')
+    if bad:
+        return {'key': 'recorded:' + bad[0], 'what': f"verifier-derived {', '.join(bad)} differ from the ones Stone logged in {c['name']}"}
+    return None
+
+
 def oracle(c, co):
+    if c['kind'] == 'recorded':
+        return oracle_recorded(c, co)
     if co[0] != 'ok':
         return {'key': 'transcript:' + co[0], 'what': f'transcript run did not return ({co[0]})'}
     ch, dg, ctr = parse(co)
